@@ -29,3 +29,25 @@ s = p.read_text()
 s = re.sub(r"<!-- MATRIX-BEGIN -->.*<!-- MATRIX-END -->", "<!-- MATRIX-BEGIN -->\n" + text.replace("\\", "\\\\") + "<!-- MATRIX-END -->", s, flags=re.S)
 p.write_text(s)
 print(text[-300:])
+
+# ---- harmless changes
+rows = ["| change | keeps | what it changes (from the author's notes) | checks run (all must stay green) | alarms |", "|---|---|---|---|---|"]
+H = V / "harmless"
+n = alarms = 0
+for d in sorted(H.iterdir()) if H.exists() else []:
+    m = d / "meta.json"
+    if not m.exists():
+        continue
+    meta = json.loads(m.read_text())
+    notes = (d / "notes.md").read_text() if (d / "notes.md").exists() else ""
+    title = next((l.lstrip("# ").strip() for l in notes.splitlines() if l.strip()), "")[:100].replace("|", "/")
+    runs = meta.get("checks_run", {})
+    bad = [f"{c} (exit {r['exit']}): {r['first'][:90]}" for c, r in runs.items() if r["exit"] != 0]
+    n += 1
+    alarms += bool(bad)
+    rows.append(f"| {d.name} | {meta.get('property_kept')} | {title} | {', '.join(runs)} | {'; '.join(bad).replace('|', '/') if bad else '-'} |")
+text = "\n".join(rows) + f"\n\nChanges: {n}; with an alarm: {alarms}\n"
+s2 = p.read_text()
+s2 = re.sub(r"<!-- HARMLESS-BEGIN -->.*<!-- HARMLESS-END -->", "<!-- HARMLESS-BEGIN -->\n" + text.replace("\\", "\\\\") + "<!-- HARMLESS-END -->", s2, flags=re.S)
+p.write_text(s2)
+print(text[-200:])
